@@ -240,6 +240,7 @@ func (h *H) fracTokens(dict [][]byte, nRandom int) []tok {
 		{from: str("10"), to: str("100"), incFrom: true, incTo: true}, {from: str("-5"), to: str("5.5")}, {from: str("10")}, {to: str("0"), incTo: true},
 		{from: str("10"), to: str("b")}, {from: str("1e2"), to: str("1e3"), incFrom: true}, {from: str(""), to: str("a"), incTo: true},
 		{from: str("1.5"), to: str("1.9"), incFrom: true, incTo: true}, {from: str("1.5"), to: str("19.5")}, {from: str("-2.5"), to: str("-1.5"), incTo: true},
+		{from: str("10000000000000000000"), to: str("1000000000000000000000"), incFrom: true, incTo: true}, {from: str("18446744073709551616")}, {to: str("9223372036854775808")},
 		{from: str("2.25"), to: str("2.75"), incFrom: true}, {from: str("1e0"), to: str("1e1")}, {from: str("n1"), to: str("n2")}, {from: str("0.5"), to: nil},
 	} {
 		toks = append(toks, tok{r: r})
@@ -281,6 +282,9 @@ func (h *H) fracTokens(dict [][]byte, nRandom int) []tok {
 func fracDictNum(seed int64, n int) [][]byte {
 	r := vh.NewRNG(seed*104729 + int64(n))
 	set := map[string]bool{"": true, "a": true, "1.5": true, "1.9": true, "+1.7": true, "01.75": true}
+	for _, d := range digitPool() {
+		set[d] = true
+	}
 	for len(set) < n {
 		x := float64(r.Range(-3000, 3000)) / 100
 		s := strconv.FormatFloat(x, 'f', r.Range(0, 3), 64)
@@ -310,6 +314,58 @@ func fracDictNum(seed int64, n int) [][]byte {
 	return res
 }
 
+const longStem = "commonprefixcommonprefixcommonprefixcommonprefixcommonprefixcommonprefixcommonprefix" // 84 bytes
+
+func fracDictLong(seed int64, n int) [][]byte {
+	r := vh.NewRNG(seed*31337 + int64(n))
+	set := map[string]bool{"": true, "a": true, "commonprefix": true, longStem: true}
+	for len(set) < n {
+		s := longStem + fmt.Sprintf("%06d", r.Intn(1000000))
+		if r.Chance(1, 4) {
+			s += string(h2w(r, 10))
+		}
+		if r.Chance(1, 10) {
+			s = longStem[:r.Range(60, 84)] + string(h2w(r, 6))
+		}
+		set[s] = true
+	}
+	keys := vh.SortedKeys(set)
+	res := make([][]byte, len(keys))
+	for i, k := range keys {
+		res[i] = []byte(k)
+	}
+	return res
+}
+
+func h2w(r *vh.RNG, maxLen int) []byte {
+	b := make([]byte, r.Range(1, maxLen))
+	for i := range b {
+		b[i] = "abc"[r.Intn(3)]
+	}
+	return b
+}
+
+// longTokens: queries whose first text fragment is longer than 72 bytes
+func longTokens(dict [][]byte, r *vh.RNG) []tok {
+	str := func(s string) *string { return &s }
+	toks := []tok{
+		{lit: patTerms(longStem + "*")}, {lit: patTerms(longStem + "5*")}, {lit: patTerms(longStem + "12*")}, {lit: patTerms(longStem + "*7")},
+		{lit: patTerms(longStem + "9*9*")}, {lit: patTerms(longStem[:73] + "*")}, {lit: patTerms(longStem[:72] + "*")}, {lit: patTerms(longStem[:71] + "*")},
+		{lit: patTerms("commonprefixcommon*")}, {lit: patTerms("*" + longStem[70:] + "3*")}, {lit: patTerms(longStem)},
+		{r: &rng{from: str(longStem + "2"), to: str(longStem + "4"), incFrom: true}}, {r: &rng{from: str(longStem + "500000")}}, {r: &rng{to: str(longStem + "1"), incTo: true}},
+	}
+	for k := 0; k < 40; k++ {
+		v := dict[r.Intn(len(dict))]
+		toks = append(toks, tok{lit: []term{{data: v}}})
+		if len(v) > 80 {
+			cut := r.Range(73, len(v))
+			toks = append(toks, tok{lit: []term{{data: v[:cut]}, {star: true}}})
+			toks = append(toks, tok{lit: []term{{data: v[:cut]}, {star: true}, {data: v[len(v)-1:]}}})
+		}
+	}
+	return toks
+}
+
 // fracTok / parseFracTok: tokens with their field, for the replay lines
 func fracTokStr(t tok) string { return t.fld() + "=" + t.String() }
 
@@ -331,6 +387,9 @@ func (h *H) runFrac(env *fracEnv, seed int64, n int, seqs [][]tok) {
 	dict := fracDict(seed, n)
 	var extra map[string][][]byte
 	switch n % 10 {
+	case 3: // long tokens: 90..100 bytes sharing an 84-byte prefix, so that whole token blocks - and their MaxVal - agree
+		// on more than 72 bytes (consts.DefaultMaxTokenSize); queries lead with fragments longer than that
+		dict = fracDictLong(seed, n)
 	case 1:
 		dict = fracDictNum(seed, n)
 	case 2:
@@ -341,6 +400,9 @@ func (h *H) runFrac(env *fracEnv, seed int64, n int, seqs [][]tok) {
 		toks := h.fracTokens(dict, h.o.Pick(60, 400))
 		if extra != nil {
 			toks = append(h.fracTokens(dict, 10), wideTokens(extra)...)
+		}
+		if n%10 == 3 {
+			toks = append(h.fracTokens(dict, 20), longTokens(dict, h.rnd)...)
 		}
 		rev := make([]tok, len(toks))
 		for i, t := range toks {
@@ -442,9 +504,9 @@ func (h *H) genFrac() {
 		return
 	}
 	defer env.close()
-	sizes := []int{5, 60, 2500, 5001, 1502}
+	sizes := []int{5, 60, 2500, 5001, 1502, 1203}
 	if h.o.Thorough() {
-		sizes = []int{1, 5, 60, 700, 2500, 5001, 1502, 6000, 12001, 3002, 20000}
+		sizes = []int{1, 5, 60, 700, 2500, 5001, 1502, 1203, 6000, 12001, 3002, 4003, 20000}
 	}
 	for rep := 0; rep < h.o.Pick(1, 3); rep++ {
 		for i, n := range sizes {
